@@ -445,8 +445,11 @@ def large_cases(rng, tier):
         s[i][2] = max(s[i][2], s[i - 1][1] + s[i - 1][2] - s[i][1])
     for be in sh.BACKENDS:
         dense = be != "peewee" or tier != "quick"
+        # peewee needs ~5 ms per round (measured 54-136 s for 10^4 rounds under load): the quick tier feeds it
+        # 2 600 heartbeats (labels change at 2 500), the thorough tier the whole stream
+        s_be = s[:2600] if (be == "peewee" and tier == "quick") else s
         yield {"kind": "lifecycle-large", "only": [be], "stores": ["X"], "univ": [T], "domain": True, "phases": [
-            phase(0, [create(T)], T, 1, s, dense=dense), phase(0, [delete(T), create(T)], T, 1, s[:40])]}
+            phase(0, [create(T)], T, 1, s_be, dense=dense), phase(0, [delete(T), create(T)], T, 1, s[:40])]}
     # (2) no heartbeat merges: the bucket grows to the stream's length next to another bucket of 10^4 events
     for be in sh.BACKENDS:
         m, mo = (n, n) if (be == "sqlite" or tier != "quick") else (500, 1000)
